@@ -123,6 +123,13 @@ RefPageTables(c) == SelectSeq(RefInherited(c), LAMBDA x : x # c)
 \* "overrides X.f": the definition c.f overrides, when it is part of the documentation
 RefOverrides(c) == LET s == RefSources(c) IN IF Len(s) > 1 /\ Visible(s[2]) THEN s[2] ELSE 0
 
+\* Names and the hierarchy (harness variant "names": the member is a nested class ("nodoc") or an alias written in the
+\* class body, `f = A_c` ("doc")).  Either way the class BINDS the name:
+\*   `C.f` written anywhere      = the binding of the first class along the MRO of C that binds f   (RefFind)
+\*   bare `f` inside the body of C = the binding of C itself when it has one, else the MODULE's f (0): the scope of a
+\*                                 class body does not include what the class inherits               (RefBodyLookup)
+RefBodyLookup(c) == IF Defines(c) THEN c ELSE 0
+
 \* the laws a method resolution order obeys (evaluated on the reference here, on the REAL mro by the harness)
 HeadIsSelf(c, L) == Len(L) > 0 /\ L[1] = c
 EachAncestorOnce(c, L) == Inj(L) /\ Range(L) = {c} \cup Anc(c)
@@ -197,6 +204,14 @@ PdSources(c) == <<c>> \o SelectSeq(Tail(mro[c]), Defines) \o (IF HasIface(c) THE
 \* does not depend on which members were rendered before (PdRendered = PdDocOwner whatever the history)
 PdDocOwner(c) == LET s == SelectSeq(PdSources(c), HasDoc) IN
     IF Len(s) = 0 THEN 0 ELSE IF Documents(s[1]) THEN s[1] ELSE 0      \* "" stops the search, (None, source)
+
+\* ---- names: Documentable.expandName('C.f') walks C.mro() and takes the first class with f in its contents or in its
+\*      alias / import map (model.py expandName); a bare name in a class body is looked up in that class's own contents
+\*      and map, then in the enclosing scope (Class._localNameToFullName): never in the bases.
+\*      In the second pass a base is the object its name designated when the class statement was visited
+\*      (compute_mro: system.find_object(_initialbases[i]) first), whatever the module binds to that name later
+\*      (harness variant "shadow": `from m import B ; class C(B) ; class B(B)`): GetBases is unaffected.
+PdBodyLookup(c) == IF Defines(c) THEN c ELSE 0
 
 \* ---- a dotted lookup `C.f` made WHILE the modules are analysed (an alias statement `a = C.f`, a base `class X(C.f)`
 \*      placed right after the class statement): expandName -> Class.find -> Class.mro() with _mro still None
@@ -337,6 +352,7 @@ RefLaws == Done => \A c \in Classes : Consistent(c) =>
               /\ HeadIsSelf(c, C3(c)) /\ EachAncestorOnce(c, C3(c)) /\ LocalPrecedence(c, C3(c)) /\ Monotonic(c, C3(c))
 \* members are attributed / documented as attribute lookup along Python's order yields
 FindIsLookup == Done => \A c \in Classes : Consistent(c) => PdFind(c) = RefFind(c)
+BodyLookupIsLexical == Done => \A c \in Classes : PdBodyLookup(c) = RefBodyLookup(c)
 InheritedTable == Done => \A c \in Classes : Consistent(c) => PdInherited(c) = RefInherited(c)
 PageTables == Done => \A c \in Classes : Consistent(c) => PdPageTables(c) = RefPageTables(c)
 OverridesNote == Done => \A c \in Classes : (Consistent(c) /\ Defines(c)) => PdOverrides(c) = RefOverrides(c)
@@ -375,5 +391,6 @@ Emit == Done => PrintT(ToJson([cid |-> cid, n |-> n, bases |-> bases, born |-> b
                                inh_ref |-> PerClass(RefInhE), inh_pd |-> PerClass(PdInherited),
                                ovr_ref |-> PerClass(RefOvrE), ovr_pd |-> PerClass(PdOvrE),
                                page_ref |-> PerClass(RefPageE), page_pd |-> PerClass(PdPageTables),
+                               body_ref |-> PerClass(RefBodyLookup), body_pd |-> PerClass(PdBodyLookup),
                                early_pd |-> PerClass(PdEarlyFind), early_base_pd |-> PerClass(PdEarlyBase), late |-> PerClass(LateAbove)]))
 =============================================================================
